@@ -104,6 +104,11 @@ func Open(dir string, config Config) (*DB, error) {
 func (db *DB) Close() {
 	defer atomic.StoreUint32(&db.state, uint32(StateClosed))
 	db.closeC <- struct{}{}
+	// wait until the flusher has flushed every queued immutable memtable:
+	// the active memtable holds the newest versions and must reach the disk last,
+	// otherwise a crash in between makes recovery replay the wal of an older memtable
+	// whose versions would shadow the newer ones already stored in an sstable
+	<-db.closed
 
 	mt := db.memtable
 	mt.freeze()
@@ -114,8 +119,6 @@ func (db *DB) Close() {
 			db.logger.Warnf("failed to delete immutable wal file: %v", err)
 		}
 	}
-
-	<-db.closed
 }
 
 func (db *DB) View(fn TxnFunc) error {
